@@ -9,7 +9,7 @@ observed trace is replayed on the model inside coqc (Corr/C08.v).
 import itertools
 import operator
 
-from vlib import cz, czl, clist, copt
+from vlib import cz, czl, clist, copt, cnat
 
 SIMKINDS = ["SimEq", "SimHead", "SimNever", "SimAlways", "SimLe"]
 EQUIV = ("SimEq", "SimHead", "SimAlways")        # reflexive + symmetric + transitive operators
@@ -124,6 +124,7 @@ class Driver:
         seen = []                 # snapshots (geno tuple, weighted fitness) of everything shown since the last clear
         pure = True               # only update/clear so far -> the full statement applies
         ops_terms, obs_terms, obs_log = [], [], []
+        hops, hobs = [], []       # heap-level history: every in-place overwrite and every call
         event = 0
         garbage = 0
         case = {"kind": kind, "maxsize": m, "similar": simk, "weights": list(weights),
@@ -131,18 +132,26 @@ class Driver:
                 "creator_classes": bool(use_creator)}
         viol = []
 
+        def note_hset(slot):
+            p = pool[slot]
+            hops.append("(HSet %s (mkobj %s %s))" % (cnat(slot), czl([int(g) for g in p]),
+                                                    czl([self.to_int(v) for v in p.fitness.wvalues])))
+            hobs.append("None")
+
         def set_content(slot, ci):
             g, v = universe[ci]
             pool[slot][:] = list(g)
             pool[slot].fitness.values = tuple(float(x) for x in v)
+            note_hset(slot)
 
         def scramble():
             nonlocal garbage
-            for p in pool:
+            for k, p in enumerate(pool):
                 garbage += 1
                 p[:] = [-7 - garbage % 3]
                 sign = 1 if garbage % 2 else -1
                 p.fitness.values = tuple(float(sign * 1000 * (1 if w > 0 else -1)) for w in weights)
+                note_hset(k)
 
         raised = False
         for o in script:
@@ -158,6 +167,7 @@ class Driver:
                     elems.append((event, [int(g) for g in p], [self.to_int(v) for v in p.fitness.wvalues]))
                     event += 1
                 ops_terms.append("(OUpdate %s)" % clist([cind(*e) for e in elems]))
+                hops.append("(HUpdate %s)" % clist([cnat(slot) for (slot, _) in o[1]]))
                 cur = {}
                 for (slot, ci) in o[1]:
                     cur[slot] = ci
@@ -175,12 +185,14 @@ class Driver:
                 ops_terms.append("(OInsert %s)" % cind(event, [int(g) for g in p], [self.to_int(v) for v in p.fitness.wvalues]))
                 event += 1
                 pure = False
+                hops.append("(HInsert %s)" % cnat(slot))
                 try:
                     arch.insert(p)
                 except Exception as e:      # noqa
                     raised = type(e).__name__
             elif o[0] == "remove":
                 ops_terms.append("(ORemove %s)" % cz(o[1]))
+                hops.append("(HRemove %s)" % cz(o[1]))
                 pure = False
                 try:
                     arch.remove(o[1])
@@ -188,6 +200,7 @@ class Driver:
                     raised = type(e).__name__
             else:
                 ops_terms.append("OClear")
+                hops.append("HClear")
                 seen = []
                 try:
                     arch.clear()
@@ -195,6 +208,7 @@ class Driver:
                     raised = type(e).__name__
             if raised:
                 obs_terms.append("None")
+                hobs.append("(Some None)")
                 obs_log.append("raise " + raised)
                 if pure and (kind == "pf" or m >= 1):
                     viol.append(("update raised %s" % raised, None))
@@ -202,8 +216,11 @@ class Driver:
             try:
                 ks, its = self.read(arch, pool_ids, idmap, alive)
                 before = (ks, its)
+                cstate = lambda st: "(Some (Some (%s, %s)))" % (clist([czl(k) for k in st[0]]), clist([cind(*t) for t in st[1]]))
+                hobs.append(cstate(before))
                 scramble()
                 after = self.read(arch, pool_ids, idmap, alive)
+                hobs[-1] = cstate(after)       # observation after the last in-place overwrite
                 fit_alias = [k for k, it in enumerate(arch.items) if id(it.fitness) in pool_fit_ids]
                 key_alias = [k for k, kk in enumerate(arch.keys) if id(kk) in pool_fit_ids]
                 # the public list-like interface shows the same members
@@ -214,6 +231,8 @@ class Driver:
                             and (n == 0 or arch[-1] is arch.items[-1]))
             except Exception as e:          # noqa  (e.g. archive left holding invalid fitnesses)
                 viol.append(("archive unreadable after the operation: %s" % type(e).__name__, None))
+                while len(hobs) < len(hops):
+                    hobs.append("None")
                 obs_terms.append("None")
                 obs_log.append("unreadable")
                 break
@@ -242,7 +261,9 @@ class Driver:
             run.oracle_violation("%s: %s" % ("HallOfFame" if kind == "hof" else "ParetoFront", what), case, observed=obs)
         kterm = copt(m if kind == "hof" else None, cz)
         term = "CArch %s %s %s %s" % (kterm, simk, clist(ops_terms), clist(obs_terms))
-        return term, case
+        assert len(hops) == len(hobs), (len(hops), len(hobs))
+        hterm = "CHeap %s %s %s %s %s" % (kterm, simk, cnat(nslots), clist(hops), clist(hobs))
+        return term, hterm, case
 
     @staticmethod
     def oracle(kind, m, simk, spec, seen, A):
@@ -332,15 +353,16 @@ def main(run):
                 "all submitted objects are overwritten in place and the archive is read again. "
                 "exhaustive: every history of 3 update batches (each 0..2 individuals, with repetition) over a universe of 4 "
                 "individuals (slots = objects, so re-submission is by identity), m in 1..3, 1 and 2 objectives, all weight signs "
-                "(quick: all histories of <=2 batches for every configuration plus a seed-chosen sample of the 3-batch ones; "
-                "thorough: all of them, several universes); random: 1..4 objectives, mixed weights, m 1..6, up to 14 batches of up "
+                "(quick: all histories of <=2 batches for every configuration plus a seed-chosen sample of 150 of the 3-batch ones; "
+                "thorough: all 9261 3-batch histories for the first universe of each arity, <=2 batches + 1500 sampled for 2-3 further universes); "
+                "every 8th exhaustive history and every random one is also replayed on the heap-level model; random: 1..4 objectives, mixed weights, m 1..6, up to 14 batches of up "
                 "to 7 individuals, tie-heavy grids, planted antichain-then-dominator patterns, similarity operators eq / first-gene / "
                 "always / never / non-symmetric; api: update mixed with direct insert / remove(any index) / clear. "
                 "distinct = full script + configuration; non-trivial = at least one non-empty update.")
     run.trusted += ["Coq 8.16.1 kernel and vm_compute",
-                    "hand-written model coq/Model/C08_Archive.v tied by correspondence (harness/c08.py, coq/Corr/C08.v)",
+                    "hand-written models coq/Model/C08_Archive.v (value level) and coq/Model/C08_Heap.v (objects/references/in-place writes) tied by correspondence (harness/c08.py, coq/Corr/C08.v)",
                     "CPython list index/insert/del semantics and bisect_right as modelled in Model/C08_Archive.v; tuple comparison by Base/PyTuple.v",
-                    "copy.deepcopy: the model has value semantics; independence from later in-place modification is observed on the implementation on every case (re-read after overwrite, object identities), not proved",
+                    "copy.deepcopy modelled as allocation of a fresh object with equal contents (heap-level model; C08_deepcopy_independent proves the archive's view then never depends on later in-place writes); that CPython's deepcopy of an individual behaves so is observed on every case (re-read after overwriting every submitted object, object identities)",
                     "fitness values restricted to integer-valued floats (order-isomorphic to Z)"]
     run.assumptions += ["m >= 1", "similar is reflexive and symmetric; for the hall of fame similar individuals have equal fitness (DESIGN Appendix B item 5)",
                         "all fitnesses of one history have the same number of objectives; values finite"]
@@ -367,18 +389,24 @@ def main(run):
         for ui, uni in enumerate(unis):
             for w in sign_vectors[nobj]:
                 for m in (1, 2, 3):
-                    configs.append(("hof", m, w, uni))
-                configs.append(("pf", None, w, uni))
+                    configs.append(("hof", m, w, uni, ui))
+                configs.append(("pf", None, w, uni, ui))
     hist2 = [[a, b] for a in single for b in single]
     hist3 = [[a, b, c] for a in single for b in single for c in single]
-    for (kind, m, w, uni) in configs:
-        if run.thorough:
-            hs = hist3
+    nexh = 0
+    for (kind, m, w, uni, ui) in configs:
+        if run.thorough and ui == 0:
+            hs = hist3                           # every history of 3 batches (prefixes are observed too)
+        elif run.thorough:
+            hs = hist2 + rng.sample(hist3, 1500)
         else:
             hs = hist2 + rng.sample(hist3, 150)
         for h in hs:
-            term, case = D.drive(kind, m, "SimEq", w, uni, script_of(h), "exh")
+            term, hterm, case = D.drive(kind, m, "SimEq", w, uni, script_of(h), "exh")
             add("exh", term, case)
+            nexh += 1
+            if nexh % 8 == 0:                    # heap-level replay of every 8th exhaustive history
+                add("exh_heap", hterm, case)
 
     # ---------------- random histories ----------------
     def rand_universe(nobj, simk, honest):
@@ -431,11 +459,12 @@ def main(run):
         script = rand_script(len(uni), nslots, rng.randint(1, 14), 7, api=False)
         return kind, m, simk, weights, uni, script
 
-    nrand = run.scale(1200, 30000)
+    nrand = run.scale(1200, 15000)
     for it in range(nrand):
         kind, m, simk, weights, uni, script = rand_case()
-        term, case = D.drive(kind, m, simk, weights, uni, script, "rand", use_creator=rng.random() < 0.3)
+        term, hterm, case = D.drive(kind, m, simk, weights, uni, script, "rand", use_creator=rng.random() < 0.3)
         add("rand", term, case)
+        add("rand_heap", hterm, case)
 
     def search(run_):
         """Extra counterexample search on the implementation alone (only when something broke)."""
@@ -472,8 +501,9 @@ def main(run):
         for _ in range(rng.randint(1, 4)):
             script.append(("update", [(rng.randrange(5), rng.randrange(len(uni))) for _ in range(rng.randint(0, 4))]))
         kind = "pf" if rng.random() < 0.7 else "hof"
-        term, case = D.drive(kind, rng.randint(1, 4), "SimEq", weights, uni, script, "plant")
+        term, hterm, case = D.drive(kind, rng.randint(1, 4), "SimEq", weights, uni, script, "plant")
         add("plant", term, case)
+        add("plant_heap", hterm, case)
 
     # api: direct insert / remove / clear mixed with updates, and maxsize 0
     for it in range(run.scale(400, 6000)):
@@ -484,8 +514,9 @@ def main(run):
         uni = rand_universe(nobj, simk, True)
         m = rng.choice([0, 1, 2, 3, 4])
         script = rand_script(len(uni), rng.randint(1, 4), rng.randint(1, 10), 5, api=True)
-        term, case = D.drive(kind, m, simk, weights, uni, script, "api")
+        term, hterm, case = D.drive(kind, m, simk, weights, uni, script, "api")
         add("api", term, case)
+        add("api_heap", hterm, case)
 
     for g, (terms, cases) in groups.items():
         run.correspond(g, "C08", terms, cases)
